@@ -4,6 +4,8 @@ import (
 	"encoding/hex"
 	"fmt"
 	"path/filepath"
+	"strings"
+	"sync"
 
 	"github.com/elnosh/gonuts/cashu"
 	"github.com/decred/dcrd/dcrec/secp256k1/v4"
@@ -32,7 +34,83 @@ type Op struct {
 	Fee    uint     `json:"fee,omitempty"`
 	V3     bool     `json:"v3,omitempty"`
 	NoDleq bool     `json:"nodleq,omitempty"`
+	// crash: run Victim and kill the wallet process before its K-th storage write / HTTP call / HTTP reply (K = 0: only count them)
+	Victim *Op `json:"victim,omitempty"`
+	K      int `json:"k,omitempty"`
 }
+
+// crashAt freezes the calling goroutine for good at the k-th crash point: the wallet process is dead from there on.
+type crashAt struct {
+	mu      sync.Mutex
+	k, n    int
+	names   []string
+	crashed chan struct{}
+	at      string
+}
+
+func crashPoint(kind, name string) bool {
+	return kind == "http" || kind == "http-reply" || (kind == "wdb" && !strings.HasPrefix(name, "Get"))
+}
+
+func (c *crashAt) Point(kind, name string) error {
+	if !crashPoint(kind, name) {
+		return nil
+	}
+	c.mu.Lock()
+	c.n++
+	c.names = append(c.names, kind+":"+name)
+	hit := c.k > 0 && c.n == c.k
+	if hit {
+		c.at = kind + ":" + name
+		close(c.crashed)
+	}
+	dead := c.k > 0 && c.n >= c.k
+	c.mu.Unlock()
+	if dead {
+		select {} // killed: never returns
+	}
+	return nil
+}
+
+// seedLive is the mint-side truth of C19: the value of all outputs derived from the wallet's seed that a mint has
+// signed and whose proof is not spent there (unspent or pending), whoever holds them now.
+func (ww *WW) seedLive(wname string) (int, int) {
+	ww.mu.Lock()
+	byMint := map[string][]string{}
+	secretOf := map[string]string{}
+	for B_, d := range ww.byB {
+		if d.Wallet == wname {
+			m := ""
+			for name, ms := range ww.Mints {
+				for _, k := range ms.W.Reg.Keysets {
+					if k.Real == d.Keyset {
+						m = name
+					}
+				}
+			}
+			if m != "" {
+				byMint[m] = append(byMint[m], B_)
+				secretOf[B_] = d.Secret
+			}
+		}
+	}
+	ww.mu.Unlock()
+	total, n := 0, 0
+	for m, bs := range byMint {
+		for _, B_ := range bs {
+			sig, err := ww.Mints[m].W.Raw.GetBlindSignature(B_)
+			if err != nil || sig.C_ == "" {
+				continue
+			}
+			if ww.mintState(m, secretOf[B_]) != "spent" {
+				total += int(sig.Amount)
+				n++
+			}
+		}
+	}
+	return total, n
+}
+
 
 func (ww *WW) feeOf(mint string, proofs cashu.Proofs) int {
 	ms := ww.Mints[mint]
@@ -323,6 +401,28 @@ func (ww *WW) Exec(op Op) *Event {
 
 	case "restore":
 		return ww.opRestore(op)
+
+	case "crash":
+		c := &crashAt{k: op.K, crashed: make(chan struct{})}
+		ww.Sched, ww.crashed = c, c.crashed
+		v := *op.Victim
+		ev := ww.Exec(v)
+		ww.Sched, ww.crashed = nil, nil
+		c.mu.Lock()
+		n, at := c.n, c.at
+		names := append([]string{}, c.names...)
+		c.mu.Unlock()
+		if at != "" {
+			// the victim never returned: what the caller saw is nothing at all
+			ev.Ev = "crash"
+			ev.A = map[string]any{"w": v.W, "victim": v.Op, "k": op.K, "at": at}
+			ev.R = map[string]any{"ok": true, "panic": false, "detail": "", "crashed": true, "points": n}
+			ww.Wallets[v.W].Dead = true
+		} else {
+			ev.R["points"] = n
+			ev.R["pointnames"] = names
+		}
+		return ev
 	}
 	panic("unknown wallet op " + op.Op)
 }
@@ -354,9 +454,15 @@ func (ww *WW) opRestore(op Op) *Event {
 	for _, ms := range ww.Mints {
 		urls = append(urls, ms.URL)
 	}
-	// the old device is gone
-	ws.W.Shutdown()
+	// the mint-side truth before anything is restored
+	live, nlive := ww.seedLive(op.W)
+	afterCrash := ws.Dead
+	// the old device is gone (a killed wallet process is not shut down: its goroutine stays frozen where it died)
+	if !ws.Dead {
+		ws.W.Shutdown()
+	}
 	ws.W = nil
+	ws.Dead = false
 	ww.nTok++
 	dir := filepath.Join(ww.Dir, fmt.Sprintf("w-%s-r%d", op.W, ww.nTok))
 	var amt uint64
@@ -395,7 +501,7 @@ func (ww *WW) opRestore(op Op) *Event {
 			ws.W, ws.DB, ws.Raw, ws.Dir = w2, wrapped, wrapped.Inner, dir
 		}
 	}
-	return ww.emit("restore", map[string]any{"w": op.W}, r)
+	return ww.emit("restore", map[string]any{"w": op.W, "seedlive": live, "nseedlive": nlive, "aftercrash": afterCrash}, r)
 }
 
 func setScript(w *world.World, hash string, pay, status []string) {
